@@ -5,6 +5,7 @@ mod c02;
 mod c03;
 mod c04;
 mod c13;
+mod c15;
 mod evidence;
 mod impl_;
 mod mre;
@@ -67,6 +68,7 @@ fn main() {
         "C03" => c03::run(&tier),
         "C04" => c04::run(&tier),
         "C13" => c13::run(&tier),
+        "C15" => c15::run(&tier),
         _ => {
             eprintln!("unknown check {}", id);
             2
